@@ -1088,6 +1088,20 @@ impl<Input: InputIndexer> BacktrackExecutor<'_, Input> {
             // Don't try this unless CODE_UNITS_ARE_BYTES - i.e. don't do byte searches
             // on UTF-16 or UCS2.
             sim_step!(BT_START, 0);
+            #[cfg(feature = "verif-sim")]
+            if crate::simhook::no_prefilter() {
+                // Simulation knob: the same loop without the prefilter call.
+                if let Some(end) = self.matcher.try_at_pos(inp, 0, pos, Forward::new()) {
+                    if end != pos {
+                        *next_start = Some(end)
+                    } else {
+                        *next_start = inp.next_right_pos(end);
+                    }
+                    return Some(self.successful_match(pos, end));
+                }
+                pos = inp.next_right_pos(pos)?;
+                continue;
+            }
             if Input::CODE_UNITS_ARE_BYTES {
                 pos = inp.find_bytes(pos, prefix_search)?;
             }
